@@ -12,6 +12,17 @@ COMMON_NOTE = ('Trusted: Coq 8.16.1 kernel and vm_compute (no native_compute); t
                'not verified. ')
 
 CHECKS = {
+ 'C20': dict(
+   text='Proof (Coq): for every list of non-empty specifications styleFromList yields exactly one level per specification, levels '
+        '1..n in order, indentation factor equal to the level; a specification with a format character gives a numbering level with '
+        'that format, prefix ++ format ++ suffix = specification and no format character in the prefix, display-levels as requested; any '
+        'other gives a bullet level with its first character; the string form equals the list form for every delimiter not occurring in '
+        'the specifications; the spacing is split into adjacent number and unit pieces. Numbers are abstract (shape only). Tied by '
+        'correspondence of every attribute of every level on generated lists, judged by an oracle on the returned element, grammar '
+        'acceptance and serialisation.',
+   note='Axioms: none. float()/str(float) are not modelled (parametric); the CSS regex is modelled by span functions.',
+   tech='Coq proof by list induction + extracted-model correspondence',
+   ref='5/C20'),
  'C01': dict(
    text='Proof (Coq): for every tree, every string of code points, every namespace table satisfying doc_ok, a conforming XML 1.0 + '
         'Namespaces parser (Gallina state-machine specification, validated against expat on every run) accepts Element.toXml output and '
@@ -31,6 +42,29 @@ CHECKS = {
         'the XML sub-language without DTD, PI, comments.',
    tech='Coq proof by induction over strings and rose trees (closed under the global context) + correspondence',
    ref='5/C02'),
+ 'C07': dict(
+   text='Proof (Coq): every raising DOM/Element operation of the heap model returns the heap it was given (tree, link fields, owner '
+        'marks, element index, style dictionary) - for any consistent heap and any operation; a raising constructor call (any failing '
+        'text/attribute step, missing required attribute, parent refusing the child) leaves every existing node and both lookups unchanged '
+        'and the refused element is nobody\'s child; a raising setAttribute/setAttrNS yields no new attribute store. The pre-repair order '
+        '(parent= attached mid-way) is refuted by a computed example. Tied by lock-step correspondence (outcome kind + whole heap) and a '
+        'full-snapshot oracle over every refusal kind x entry point after random histories.',
+   note='Axioms: none. Attribute processing inside __init__ enters the model as a list of per-step outcomes (decided by the grammar '
+        'tables; the harness derives them independently and the correspondence compares outcome and heap).',
+   tech='Coq proof (heap model, atomicity of every raising operation) + lock-step correspondence',
+   ref='5/C07'),
+ 'C08': dict(
+   text='Proof (Coq): the consistency invariant (each listed child has that parent and conversely, no duplicates, previous/next links '
+        'follow child order, detached nodes have no siblings, childless kinds have no children) is preserved by appendChild, insertBefore '
+        '(every reference), removeChild, addElement, addText, addCDATA, succeeding or raising, on attached and free-standing trees; hence '
+        'it holds after operation histories of ANY length (induction), starting e.g. from any number of unlinked nodes. Not-a-child '
+        'removal/insertion yields NotFoundErr and changes nothing; a node has at most one parent; a moved node ends at the new place. '
+        'Tied by lock-step correspondence of every stored link field after every step over bounded-exhaustive and random histories, and '
+        'judged by an independent list-only reference model.',
+   note='Axioms: none. The heap model performs the reads/writes of element.py in order; subtree walks and index order are abstracted '
+        '(stated in Dom.v, validated by correspondence).',
+   tech='Coq invariant proof over a pointer-heap model, induction over operation lists + lock-step correspondence',
+   ref='5/C08'),
  'C14': dict(
    text='Proof (Coq): invariant by induction over every history of prefix requests (get_nsprefix for unknown namespaces, unqualified '
         'names, formula/namespaced-token prefixes via __save_prefix) starting from the regenerated nsdict: the table written on root '
